@@ -231,6 +231,12 @@ def run(rep) -> None:
         g = gen.generate(gen.mkdoc(schemas=cap), d / "capnames")
         if not g["exc"] and not g["rejected"]:
             packages.append(d / "capnames")
+        # parameters named like the endpoint code's own names (harvested), with and without a body: a name that is reserved only under some
+        # condition shows up as a redefinition under mypy
+        from . import C01 as c01
+        g = gen.generate(c01.endpoint_owned_names_document(d), d / "ownnames")
+        if not g["exc"] and not g["rejected"]:
+            packages.append(d / "ownnames")
         if quick:       # the packed codec packages are large: type-check one of each style + everything else
             keep = [p for p in packages if not p.name.startswith("pk")] + [p for p in packages if p.name == "pk0"]
             packages = keep
